@@ -335,3 +335,56 @@ pub mod benches {
         group.finish();
     }
 }
+
+/// Verification hook (compiled only with `--cfg nomt_verif`): the real [`LeafBuilder`] driven call by call on
+/// caller-supplied base pages (`new`, then `push_cell` / `push_chunk` in the given order, then `finish`), and a leaf
+/// page read back through the real [`LeafNode`] accessors. Nothing here is used by the store itself.
+#[cfg(nomt_verif)]
+pub mod verif {
+    use super::{Key, LeafBuilder, LeafNode, PagePool, PAGE_SIZE};
+
+    /// One builder call.
+    pub enum Op {
+        /// `push_cell(key, value, overflow)`
+        Cell(Key, Vec<u8>, bool),
+        /// `push_chunk(&LeafNode { inner: <these 4096 bytes> }, from, to)`
+        Chunk(Vec<u8>, usize, usize),
+    }
+
+    fn node_from(pool: &PagePool, page: &[u8]) -> LeafNode {
+        let mut inner = pool.alloc_fat_page();
+        inner.copy_from_slice(page);
+        LeafNode { inner }
+    }
+
+    /// `LeafBuilder::new(&pool, n, total)`, the page bytes `[2, 4096)` zeroed (the pool hands out pages with
+    /// undefined contents), the ops in order, `finish()`: the 4096 bytes of the leaf. Panics where the real
+    /// calls panic.
+    pub fn run(n: usize, total: usize, ops: &[Op]) -> Vec<u8> {
+        let pool = PagePool::new();
+        let mut builder = LeafBuilder::new(&pool, n, total);
+        builder.leaf.inner[2..PAGE_SIZE].fill(0);
+        for op in ops {
+            match op {
+                Op::Cell(key, value, overflow) => builder.push_cell(*key, value, *overflow),
+                Op::Chunk(page, from, to) => {
+                    let base = node_from(&pool, page);
+                    builder.push_chunk(&base, *from, *to)
+                }
+            }
+        }
+        builder.finish().inner.to_vec()
+    }
+
+    /// `(key(i), value(i).0, value(i).1)` for `i < n()` of the leaf with the given 4096 bytes.
+    pub fn entries(page: &[u8]) -> Vec<(Key, Vec<u8>, bool)> {
+        let pool = PagePool::new();
+        let node = node_from(&pool, page);
+        (0..node.n())
+            .map(|i| {
+                let (v, o) = node.value(i);
+                (node.key(i), v.to_vec(), o)
+            })
+            .collect()
+    }
+}
